@@ -26,14 +26,14 @@ package mapset
 //@
 //@ func (Set).Len
 //@   pure
-//@   ensures [C18] result == len(s)
+//@   ensures [C18,C19] result == len(s)
 //@
 //@ func (Set).Has
 //@   pure
-//@   ensures [C18] result == (t in s)
+//@   ensures [C18,C19] result == (t in s)
 //@
 //@ func (Set).Clear
-//@   ensures [C18] result == s && dom(s) == emptyset(dom(s))
+//@   ensures [C18,C19] result == s && dom(s) == emptyset(dom(s))
 //@   modifies mapof(s)
 //@
 //@ func (Set).Clone
@@ -41,14 +41,15 @@ package mapset
 //@
 //@ func (Set).add
 //@   requires s != nil
-//@   ensures [C18] result == s
-//@   ensures [C18] members: forall x T :: {x in s} x in s <==> (old(x in s) || inlist(x, items))
+//@   ensures [C18,C19] result == s
+//@   ensures [C18,C19] members: forall x T :: {x in s} x in s <==> (old(x in s) || inlist(x, items))
 //@   modifies mapof(s)
 //@   loop 1: invariant members: forall x T :: {x in s} x in s <==> (old(x in s) || (exists i int :: 0 <= i && i < it1 && items[i] == x))
 //@
 //@ func (*Set).Add
-//@   ensures [C18] result == deref(s) && result != nil && (old(deref(s)) != nil ==> result == old(deref(s))) && (old(deref(s)) == nil ==> fresh(result))
-//@   ensures [C18] members: forall x T :: {x in result} x in result <==> (old(x in deref(s)) || inlist(x, items))
+//@   ensures [C18,C19] result == deref(s) && result != nil && (old(deref(s)) != nil ==> result == old(deref(s))) && (old(deref(s)) == nil ==> fresh(result))
+//@   ensures [C18,C19] members: forall x T :: {x in result} x in result <==> (old(x in deref(s)) || inlist(x, items))
+//@   ensures [C18,C19] single: len(items) == 1 ==> dom(result) == setadd(old(dom(deref(s))), items[0])
 //@   modifies deref(s), mapof(deref(s))
 //@
 //@ func (*Set).AddAll
@@ -62,8 +63,9 @@ package mapset
 //@   loop 1: invariant operand: forall x T :: {x in t} old(x in t) ==> x in t
 //@
 //@ func (Set).Remove
-//@   ensures [C18] result == s
-//@   ensures [C18] members: forall x T :: {x in s} x in s <==> (old(x in s) && !inlist(x, items))
+//@   ensures [C18,C19] result == s
+//@   ensures [C18,C19] members: forall x T :: {x in s} x in s <==> (old(x in s) && !inlist(x, items))
+//@   ensures [C18,C19] single: len(items) == 1 ==> dom(s) == setdel(old(dom(s)), items[0])
 //@   modifies mapof(s)
 //@   loop 1: invariant members: forall x T :: {x in s} x in s <==> (old(x in s) && !(exists i int :: 0 <= i && i < it1 && items[i] == x))
 //@
